@@ -141,7 +141,7 @@ def check(ctx):
                    f'number of edges along axis {k} is `{norm_text(expr)}`, not 1 + L // resolution: the grid size differs from '
                    f'L // resolution (voxel smaller than the requested resolution or one voxel lost)')
     # array extent per axis
-    stores = [e for e in uniq_events(it, {'store'}, inside) if e['kind'] == 'sub' and e['base'] is not None and e['base'].alloc in ('zeros', 'empty', 'full')]
+    stores = [e for e in uniq_events(it, {'store'}, inside) if e['kind'] in ('sub', 'add_at') and e['base'] is not None and e['base'].alloc in ('zeros', 'empty', 'full')]
     if not stores and not uniq_events(it, {'fancy_aug'}, inside):
         ctx.ob('R4', fi, 'count array', None, 'the count array write was not recognised')
     for e in stores:
@@ -189,6 +189,9 @@ def check(ctx):
         src = val.counts_of if val is not None else None
         ok = src is not None and src.rows is None and (src.colvals is not None) and all(c.digit is not None for c in src.colvals)
         same = ok and items is not None and all(x.digit is not None for x in items)
+        if e['kind'] == 'add_at':
+            # np.add.at(data, (i, j, k), 1): one unbuffered increment per sample
+            same = val is not None and has_const(val) and cval(val) == 1 and items is not None and all(x.digit is not None for x in items)
         ctx.ob('R4', fi, e['node'], True if same else None,
                'multiplicities of the digitised (x, y, z) triples written at those triples' if same else 'count source not recognised')
     for e in uniq_events(it, {'fancy_aug'}, inside):
@@ -226,47 +229,96 @@ def check_peaks(ctx):
                         ctx.ob('R1', fi, n, False, 'a peak at index == extent is kept (outside the grid)')
 
 
+def _strip(n):
+    """Drop array-conversion wrappers: np.array(x), np.asarray(x), tuple(x), list(x)."""
+    while isinstance(n, ast.Call) and len(n.args) >= 1 and norm_text(n.func).split('.')[-1] in ('array', 'asarray', 'tuple', 'list', 'asanyarray'):
+        n = n.args[0]
+    return n
+
+
+def _binary(n, op_type, fn_names):
+    n = _strip(n)
+    if isinstance(n, ast.BinOp) and isinstance(n.op, op_type):
+        return _strip(n.left), _strip(n.right)
+    if isinstance(n, ast.Call) and norm_text(n.func).split('.')[-1] in fn_names and len(n.args) >= 2:
+        return _strip(n.args[0]), _strip(n.args[1])
+    return None
+
+
+def centre_formula(t):
+    """t == (voxel + c) / dims in any spelling -> (c, voxel text, dims text) else None"""
+    d = _binary(t, ast.Div, ('divide', 'true_divide'))
+    if d is None:
+        return None
+    num, den = d
+    a = _binary(num, ast.Add, ('add',))
+    if a is None:
+        return None
+    consts = [x for x in a if isinstance(x, ast.Constant) and isinstance(x.value, (int, float)) and not isinstance(x.value, bool)]
+    others = [x for x in a if x not in consts]
+    if len(consts) != 1 or len(others) != 1:
+        return None
+    return float(consts[0].value), norm_text(others[0]), norm_text(den)
+
+
 def check_voxel_maps(ctx):
+    from .common import parse_sx
     fv = ctx.fn(f'{VOL}.voxel_to_frac_coords')
     ff = ctx.fn(f'{VOL}.frac_coords_to_voxel')
 
     def ret(f):
+        it_ = ctx.entry(f.qualname)
         rs = [r.value for r in ast.walk(f.node) if isinstance(r, ast.Return) and r.value is not None]
-        return rs[-1] if rs else None
+        if not rs:
+            return None, None
+        return rs[-1], parse_sx(it_.sx(rs[-1]), full=True)
 
-    rv = ret(fv)
+    rv, tv = ret(fv)
     c = None
     ok = None
-    if isinstance(rv, ast.BinOp) and isinstance(rv.op, ast.Div):
-        num, den = rv.left, rv.right
-        if isinstance(num, ast.BinOp) and isinstance(num.op, ast.Add):
-            for side in (num.left, num.right):
-                if isinstance(side, ast.Constant) and isinstance(side.value, (int, float)):
-                    c = float(side.value)
-            dims_ok = 'self.dims' in norm_text(den)
-            vox_ok = 'voxel' in norm_text(num)
-            ok = c is not None and 0 < c < 1 and dims_ok and vox_ok
-            if c is not None and not (0 < c < 1):
-                ok = False
+    cf = centre_formula(tv) if tv is not None else None
+    if cf is not None:
+        c, vox, den = cf
+        dims_ok = 'self.dims' in den
+        vox_ok = 'voxel' in vox
+        ok = (0 < c < 1) and dims_ok and vox_ok
+        if not (0 < c < 1):
+            ok = False
+        elif not (dims_ok and vox_ok):
+            ok = None
     ctx.ob('R3', fv, rv if rv is not None else 'return', ok,
            f'(voxel + {c}) / dims: a point strictly inside the voxel' if ok else
            (f'offset {c} puts the converted point on a voxel face: converting back yields a neighbouring voxel' if c is not None else 'formula not recognised'))
-    rf = ret(ff)
-    t = norm_text(rf).replace(' ', '') if rf is not None else ''
-    okf = t in ('(np.array(frac_coords)*np.array(self.dims)).astype(int)', 'np.floor(np.array(frac_coords)*np.array(self.dims)).astype(int)')
+    rf, tf = ret(ff)
+    okf = None
+    if tf is not None:
+        x = tf
+        if isinstance(x, ast.Call) and isinstance(x.func, ast.Attribute) and x.func.attr == 'astype' and x.args and norm_text(x.args[0]) in ('int', 'np.int64', 'np.intp'):
+            x = _strip(x.func.value)
+            if isinstance(x, ast.Call) and norm_text(x.func).split('.')[-1] in ('floor', 'trunc') and x.args:
+                x = _strip(x.args[0])
+            m = _binary(x, ast.Mult, ('multiply',))
+            if m is not None:
+                texts = {norm_text(m[0]), norm_text(m[1])}
+                okf = True if texts == {'frac_coords', 'self.dims'} else None
     ctx.ob('R3', ff, rf if rf is not None else 'return', True if okf else None, 'trunc(fraction * dims) with the same dims' if okf else 'formula not recognised')
     # siblings using the voxel centre
     for q, pat in ((f'gemdat.path.Pathway.frac_sites', None), (f'{VOL}._props_to_frac_coords_centroid', None)):
         f = ctx.fn(q)
         found = False
+        itf = ctx.entry(f.qualname)
+        seen_txt = set()
         for n in ast.walk(f.node):
-            if isinstance(n, ast.BinOp) and isinstance(n.op, ast.Div) and 'self.dims' in norm_text(n.right) and isinstance(n.left, ast.BinOp) \
-                    and isinstance(n.left.op, ast.Add):
-                cc = [s.value for s in (n.left.left, n.left.right) if isinstance(s, ast.Constant) and isinstance(s.value, (int, float))]
-                if cc:
-                    found = True
-                    same = c is not None and float(cc[0]) == c
-                    ctx.ob('R3', f, n, same if c is not None else None, f'same voxel centre offset {cc[0]}' if same else
-                           f'uses offset {cc[0]} while Volume.voxel_to_frac_coords uses {c}')
+            if not isinstance(n, (ast.BinOp, ast.Call)):
+                continue
+            t_ = parse_sx(itf.sx(n), full=True)
+            cf_ = centre_formula(t_) if t_ is not None else None
+            if cf_ is None or 'self.dims' not in cf_[2] or norm_text(t_) in seen_txt:
+                continue
+            seen_txt.add(norm_text(t_))
+            found = True
+            same = c is not None and cf_[0] == c
+            ctx.ob('R3', f, n, same if c is not None else None, f'same voxel centre offset {cf_[0]}' if same else
+                   f'uses offset {cf_[0]} while Volume.voxel_to_frac_coords uses {c}')
         if not found:
             ctx.ob('R3', f, q.split('.')[-1], None, 'voxel-centre formula not recognised')
